@@ -1,4 +1,4 @@
 From Coq Require Import Extraction ExtrOcamlBasic List.
-From MirV Require Import C13.Link.
+From MirV Require Import C13.Link C13.Reent.
 Extraction Language OCaml.
-Extraction "c13x.ml" init step run build exported assoc pubs_of_step.
+Extraction "c13x.ml" init step run build exported assoc pubs_of_step step_re.
